@@ -180,3 +180,84 @@ func ZZ_C09_senderAuth() {
 	_ = util.Contains
 	_ = zzfake.Logger
 }
+
+func init() { zz.Register("ZZ_C09_controlPackets", ZZ_C09_controlPackets) }
+
+// ZZ_C09_controlPackets: accept / reject / abort / execute packets reach Process.Packet of a node that has a
+// proposal pending (stored in the REAL DKG store, so what later reads see is what the store hands out).
+// Claimed sender, named acceptor and signing key are symbolic. The node's DKG state (as read back from the
+// store) changes only if the packet is signed by the participant it names as sender and that participant is
+// entitled to the action: only the leader aborts or executes, only a remaining member accepts or rejects, and
+// only for itself. A refused packet leaves the state exactly as it was.
+func ZZ_C09_controlPackets() {
+	w := zzNewWorld(4) // 0 = this node, 1 = leader, 2 = another remaining member, 3 = joiner or outsider
+	bolt, err := NewDKGStore(zz.TempDir("c09ctl"))
+	if err != nil {
+		panic(err)
+	}
+	g, ep := w.group(3, 2, 1700000000, []byte("seed"))
+	fin := &DBState{BeaconID: zzBeacon, Epoch: 1, State: Complete, Threshold: 2, Timeout: time.Now().Add(-time.Hour), SchemeID: w.sch.Name,
+		GenesisTime: time.Unix(1700000000, 0), GenesisSeed: []byte("seed"), BeaconPeriod: 30 * time.Second, CatchupPeriod: 15 * time.Second,
+		Leader: w.parts[1], Joining: w.parts[:3], Acceptors: w.parts[:3], FinalGroup: g, KeyShare: ep.Share(w.sch, 0)}
+	if err := bolt.SaveFinished(zzBeacon, fin); err != nil {
+		panic(err)
+	}
+	var joining []*drand.Participant
+	if zz.Bool("proposal.has_joiner") {
+		joining = []*drand.Participant{w.parts[3]}
+	}
+	cur := &DBState{BeaconID: zzBeacon, Epoch: 2, State: []Status{Proposed, Accepted}[zz.Choose("state", 2)], Threshold: 2, Timeout: time.Now().Add(time.Hour),
+		SchemeID: w.sch.Name, GenesisTime: time.Unix(1700000000, 0), GenesisSeed: []byte("seed"), BeaconPeriod: 30 * time.Second, CatchupPeriod: 15 * time.Second,
+		Leader: w.parts[1], Remaining: w.parts[:3], Joining: joining}
+	if cur.State == Accepted {
+		cur.Acceptors = []*drand.Participant{w.parts[0]}
+	}
+	if err := bolt.SaveCurrent(zzBeacon, cur); err != nil {
+		panic(err)
+	}
+	st := &zzRecStore{Store: bolt}
+	p := NewDKGProcess(st, &zzIdent{w.pairs[0]}, util.NewFanOutChan[SharingOutput](), &zzClient{}, nil,
+		Config{Timeout: time.Hour, TimeBetweenDKGPhases: time.Second, KickoffGracePeriod: time.Hour}, zzfake.Logger())
+	before, _ := st.GetCurrent(zzBeacon)
+	before = zzCloneState(before)
+	terms := termsFromState(before)
+
+	claimed := 1 + zz.Choose("claimed_sender", 3) // leader, member 2, participant 3
+	signer := 1 + zz.Choose("signer", 3)
+	named := 1 + zz.Choose("named_participant", 3) // whom an accept/reject packet names
+	kind := zz.Choose("packet", 4)
+	var pkt *drand.GossipPacket
+	switch kind {
+	case 0:
+		pkt = &drand.GossipPacket{Packet: &drand.GossipPacket_Accept{Accept: &drand.AcceptProposal{Acceptor: w.parts[named]}}}
+	case 1:
+		pkt = &drand.GossipPacket{Packet: &drand.GossipPacket_Reject{Reject: &drand.RejectProposal{Rejector: w.parts[named]}}}
+	case 2:
+		pkt = &drand.GossipPacket{Packet: &drand.GossipPacket_Abort{Abort: &drand.AbortDKG{Reason: "r"}}}
+	case 3:
+		pkt = &drand.GossipPacket{Packet: &drand.GossipPacket_Execute{Execute: &drand.StartExecution{Time: zzTS(time.Now().Add(time.Hour))}}}
+	}
+	zzSign(w, signer, w.parts[claimed].Address, pkt, terms)
+	_, perr := p.Packet(context.Background(), pkt)
+	zz.Quiesce()
+	after, _ := st.GetCurrent(zzBeacon)
+	changed := len(st.ops) > 0 || !zzSameRecord(before, after)
+	if perr != nil {
+		zz.Assert("refused_packet_leaves_the_state_as_it_was", !changed)
+	}
+	if changed {
+		zz.Assert("state_changes_only_on_a_packet_signed_by_its_claimed_sender", signer == claimed)
+		switch kind {
+		case 0, 1:
+			zz.Assert("accept_or_reject_only_by_the_named_member_itself", named == claimed)
+			zz.Assert("accept_or_reject_only_by_a_remaining_member", named == 1 || named == 2)
+		case 2, 3:
+			zz.Assert("abort_or_execute_only_by_the_leader", claimed == 1)
+		}
+	}
+	// (an execute packet applies only once this node has accepted: Proposed -> Executing is not a transition)
+	if signer == claimed && ((kind <= 1 && named == claimed && claimed != 3) || (kind == 2 && claimed == 1) || (kind == 3 && claimed == 1 && before.State == Accepted)) {
+		zz.Assert("genuine_entitled_packet_is_applied", perr == nil && changed)
+	}
+	p.Close()
+}
